@@ -1,6 +1,7 @@
 package main
 
 import (
+	"fmt"
 	"go/types"
 )
 
@@ -149,4 +150,107 @@ func (m *Machine) pbMergeField(s *State, ft types.Type, old, nw Value) Value {
 		return nw
 	}
 	return nw
+}
+
+// deepEqual models reflect.DeepEqual on engine values: structure is concrete, scalars may be symbolic.
+func (m *Machine) deepEqual(s *State, a, b Value, depth int) *Term {
+	c := m.ctx
+	if depth > 40 {
+		return c.Bool(true) // cyclic structures: assume equal below this depth (not expected in configs)
+	}
+	switch x := a.(type) {
+	case Sc:
+		y, ok := b.(Sc)
+		if !ok || x.t.w != y.t.w {
+			return c.Bool(false)
+		}
+		return c.Cmp("=", x.t, y.t)
+	case StrV:
+		y, ok := b.(StrV)
+		if !ok || len(x.b) != len(y.b) || (x.box == nil) != (y.box == nil) {
+			return c.Bool(false)
+		}
+		r := c.Bool(true)
+		for i := range x.b {
+			r = c.And(r, c.Cmp("=", x.b[i], y.b[i]))
+		}
+		return r
+	case FloatV:
+		y, ok := b.(FloatV)
+		return c.Bool(ok && x.f == y.f)
+	case Ptr:
+		y, ok := b.(Ptr)
+		if !ok {
+			return c.Bool(false)
+		}
+		if x.obj == 0 || y.obj == 0 {
+			return c.Bool(x.obj == y.obj)
+		}
+		if x.obj == y.obj && fmt.Sprint(x.path) == fmt.Sprint(y.path) {
+			return c.Bool(true)
+		}
+		return m.deepEqual(s, s.load(x), s.load(y), depth+1)
+	case SliceV:
+		y, ok := b.(SliceV)
+		if !ok || (x.obj == 0) != (y.obj == 0) || x.len != y.len {
+			return c.Bool(false)
+		}
+		r := c.Bool(true)
+		for i := 0; i < x.len; i++ {
+			r = c.And(r, m.deepEqual(s, m.sliceElem(s, x, i), m.sliceElem(s, y, i), depth+1))
+		}
+		return r
+	case StructV:
+		y, ok := b.(StructV)
+		if !ok || len(x.f) != len(y.f) {
+			return c.Bool(false)
+		}
+		r := c.Bool(true)
+		for i := range x.f {
+			r = c.And(r, m.deepEqual(s, x.f[i], y.f[i], depth+1))
+		}
+		return r
+	case ArrayV:
+		y, ok := b.(ArrayV)
+		if !ok || x.n != y.n {
+			return c.Bool(false)
+		}
+		r := c.Bool(true)
+		for i := 0; i < x.n; i++ {
+			r = c.And(r, m.deepEqual(s, x.get(i), y.get(i), depth+1))
+		}
+		return r
+	case IfaceV:
+		y, ok := b.(IfaceV)
+		if !ok || (x.typ == nil) != (y.typ == nil) {
+			return c.Bool(false)
+		}
+		if x.typ == nil {
+			return c.Bool(true)
+		}
+		if !types.Identical(x.typ, y.typ) {
+			return c.Bool(false)
+		}
+		return m.deepEqual(s, x.v, y.v, depth+1)
+	case MapV:
+		y, ok := b.(MapV)
+		if !ok || len(x.e) != len(y.e) {
+			return c.Bool(false)
+		}
+		r := c.Bool(true)
+		for _, ex := range x.e {
+			found := c.Bool(false)
+			for _, ey := range y.e {
+				found = c.Or(found, c.And(m.keyEq(ex.k, ey.k), m.deepEqual(s, ex.v, ey.v, depth+1)))
+			}
+			r = c.And(r, found)
+		}
+		return r
+	case FuncV:
+		y, ok := b.(FuncV)
+		return c.Bool(ok && x.fn == nil && y.fn == nil)
+	case nil:
+		return c.Bool(b == nil)
+	}
+	return c.Bool(false)
 }
